@@ -28,7 +28,8 @@ namespace fastscapelib
          * Grid node structure.
          *
          * Stores both grid position and elevation at that position.
-         * Also defines  operator '>' that compares only on `elevation`.
+         * Also defines  operator '>' that compares on `elevation` first
+         * (ties are resolved using the node index).
          *
          * The main purpose of this container is for using with
          * priority-flood algorithms.
@@ -52,7 +53,10 @@ namespace fastscapelib
 
             bool operator>(const pflood_node<FG, T>& other) const
             {
-                return m_elevation > other.m_elevation;
+                // break ties on the node index so that the priority queue order
+                // does not depend on the order in which nodes are inserted
+                return m_elevation > other.m_elevation
+                       || (m_elevation == other.m_elevation && m_idx > other.m_idx);
             }
         };
 
